@@ -52,6 +52,8 @@ def observe(spec, inputs):
             out["same"] = bool(got == fresh and numpy.asarray(P2).tolist() == numpy.asarray(P2f).tolist())
             out["got"], out["fresh"] = got, fresh
             return out
+        if spec["part"] == "history":
+            return _history(n, spec, out)
         m = plspec.build(n, spec["model"], env)
         out["before"] = _snap(n, m)
         arg = {k: v for k, (p, v) in inputs.get("arg", {}).items() if p}
@@ -100,9 +102,60 @@ def observe(spec, inputs):
     return out
 
 
+def _obs(n, obj, leaves):
+    o = {}
+    if issubclass(obj.__class__, n.puan.variable):
+        return {"var": [str(obj.id), int(obj.bounds.lower), int(obj.bounds.upper)]}
+    o["repr"] = sorted(repr(x) for x in obj.flatten())
+    o["bounds"] = sorted([str(x.id), int(x.bounds.lower), int(x.bounds.upper)] for x in obj.flatten())
+    ev = obj.evaluate({l: lo for l, (lo, hi) in leaves.items()})
+    o["evaluate"] = [int(ev.lower), int(ev.upper)]
+    try:
+        P = obj.to_ge_polyhedron(True)
+        o["poly"] = [numpy.asarray(P).astype(int).tolist(), [str(v.id) for v in P.variables]]
+    except BaseException as e:   # noqa  (pyo3 PanicException is a BaseException)
+        o["poly"] = "raises %s" % type(e).__name__
+    if isinstance(obj, n.cc.StingyConfigurator):
+        P = obj.ge_polyhedron
+        o["cfgpoly"] = [numpy.asarray(P).astype(int).tolist(), [str(v.id) for v in P.variables], [int(v) for v in P.default_prio_vector]]
+        o["leafs"] = [str(v.id) for v in obj.leafs()]
+    return o
+
+
+def _der(n, obj, how, leaves):
+    if how == "add":
+        return obj.add(n.pg.Any("zz1", "zz2", variable="ZZ"))
+    if how == "assume":
+        l = sorted(leaves)[0]
+        return obj.assume({l: leaves[l][1]})
+    return obj.negate() if how == "negate" else obj.reduce()
+
+
+def _history(n, spec, out):
+    leaves = {k: (int(lo), int(hi)) for k, (lo, hi) in plspec.leaves(spec["model"]).items()}
+    how = spec["derive"]
+    cold = _obs(n, _der(n, plspec.build(n, spec["model"], {}), how, leaves), leaves)
+    fresh = _obs(n, plspec.build(n, spec["model"], {}), leaves)
+    m = plspec.build(n, spec["model"], {})
+    _obs(n, m, leaves)
+    m.evaluate_propositions({l: lo for l, (lo, hi) in leaves.items()})
+    warm = _obs(n, _der(n, m, how, leaves), leaves)
+    after = _obs(n, m, leaves)
+    out["d1"] = [k for k in cold if cold[k] != warm.get(k)]
+    out["d2"] = [k for k in fresh if fresh[k] != after.get(k)]
+    return out
+
+
 def judge(spec, inputs, out, ob):
     if out["error"] is not None:
         return True, "raised: " + out["error"]
+    if spec["part"] == "history":
+        bad = []
+        if out["d1"]:
+            bad.append("the object derived by %s() answers differently when the original had been queried before (%s)" % (spec["derive"], out["d1"]))
+        if out["d2"]:
+            bad.append("the original answers differently from a fresh object after the history (%s)" % out["d2"])
+        return bool(bad), "; ".join(bad) + " | model=%s" % plspec.show(spec["model"])
     if spec["part"] == "cache":
         if not out["same"]:
             return True, "second configurator's polyhedron depends on the first one having been queried: got column bounds %s, alone %s | env=%s" % (out["got"], out["fresh"], inputs["env"])
